@@ -15,7 +15,10 @@ pub struct AffinePoint {
 
 impl Hash for AffinePoint {
     fn hash<H: core::hash::Hasher>(&self, state: &mut H) {
-        self.inner.hash(state);
+        // Equal points may have different internal representatives, so hash
+        // the canonical encoding rather than the coordinates.
+        let element: Element = self.into();
+        element.vartime_compress().0.hash(state);
     }
 }
 
